@@ -809,6 +809,12 @@ impl Property for C18N {
         if scn.chunks.len() > 1 {
             out.push(search(Scn { chunks: vec![usize::MAX / 2], ..scn.clone() }));
         }
+        if scn.reader_stall.is_some() {
+            out.push(search(Scn { reader_stall: None, ..scn.clone() }));
+        }
+        if scn.sock_cap > 0 {
+            out.push(search(Scn { sock_cap: 0, reader_stall: None, ..scn.clone() }));
+        }
         if scn.short_io {
             out.push(search(Scn { short_io: false, ..scn.clone() }));
         }
@@ -838,6 +844,6 @@ impl Property for C18N {
     }
 
     fn size(scn: &Scn) -> usize {
-        scn.lines.len() + scn.guest.blocks.len() + scn.chunks.len().min(4) + scn.short_io as usize + (scn.sched_tries > 1) as usize
+        scn.lines.len() + scn.guest.blocks.len() + scn.chunks.len().min(4) + scn.short_io as usize + (scn.sched_tries > 1) as usize + (scn.sock_cap > 0) as usize + scn.reader_stall.is_some() as usize
     }
 }
